@@ -23,6 +23,7 @@ RULE = ("lock-step differential against itertools.groupby: the same operation se
         "over 2..4 reflexive keys and random sequences up to length 15; key absent / def / async def (suspending); "
         "sources sync and async flavoured. non-trivial = a group was advanced after the groupby moved on, or partly "
         "consumed, or skipped; distinct = (input, key, ops)")
+RULE += (' Also: group handles closed (the twin stops using the group).')
 ASSUMPTIONS = ["itertools.groupby of the running interpreter is the reference", "keys with reflexive equality only"]
 EXHAUSTIVE_SUBSPACES = "all operation sequences starting with 'adv' of length <= 5 (thorough: 6) over {adv, g-1, g-2, g0} on 12 fixed inputs"
 EXHAUSTIVE = {"quick": False, "thorough": False}
